@@ -102,7 +102,7 @@ Lemma send_ok_not_called prof s :
   WF s -> send_guard prof s ROk = true -> c_called s = false.
 Proof.
   unfold WF, send_guard. intros W H. destruct (c_called s) eqn:Hc; auto.
-  destruct (prof =? 0).
+  destruct ((prof =? 0) || (prof =? 2)).
   - apply andb_prop in H as [H _]. specialize (W eq_refl). destruct (c_sendErr s); simpl in *; congruence.
   - simpl in H. discriminate.
 Qed.
